@@ -154,7 +154,7 @@ def sweep(ctx, ncases, nmax, precs="d", drivers=("gssv",), flavour="plain", forc
             rec["evmon"] = evmon.check(rec["res"].get("events", []), min(cfg["nprocs"], 10 ** 9))
             rec["n_events"] = len(rec["res"].get("events", []))
             rec["res"]["events"] = rec["res"]["events"][:0]   # free memory
-        if rec["status"] == "ok" and 0 <= rec["info"] and not rec["res"].get("noLU") and not M.cplx:
+        if rec["status"] == "ok" and 0 <= rec["info"] and not rec["res"].get("noLU"):
             try:
                 rec["lutext"] = lucase_for(rec, M, rhs)
             except D.NonFinite:
@@ -168,8 +168,14 @@ def sweep(ctx, ncases, nmax, precs="d", drivers=("gssv",), flavour="plain", forc
     with_text = [r for r in recs if "lutext" in r]
     chunks = [with_text[i:i + batch] for i in range(0, len(with_text), batch)]
     def judge(chunk):
-        out = C.run_sludrv("lucheck", "".join(r["lutext"] for r in chunk))
-        return D.parse_verdicts(out)
+        # real factorizations: verified checkers directly; complex ones: the verified embedded judge (Model/CheckC.lean)
+        v = {}
+        re_ = [r for r in chunk if not r["M"].cplx]; cx = [r for r in chunk if r["M"].cplx]
+        if re_:
+            v.update(D.parse_verdicts(C.run_sludrv("lucheck", "".join(r["lutext"] for r in re_))))
+        if cx:
+            v.update(D.parse_verdicts(C.run_sludrv("clucheck", "".join(r["lutext"] for r in cx))))
+        return v
     with ThreadPoolExecutor(C.NPROC) as ex:
         for chunk, v in zip(chunks, ex.map(judge, chunks)):
             for r in chunk:
@@ -214,7 +220,8 @@ def judge(ctx, recs, fields, what, need_info0=True):
         v = r.get("verdict")
         if v is None or (need_info0 and r.get("info") != 0):
             continue
-        fails = [f for f in fields if v.get(f) not in ("1",)]
+        # complex factorizations: the multiplier / diagonal-preference judges are real-precision only ("-" = not evaluated)
+        fails = [f for f in fields if v.get(f) not in (("1", "-") if (r["M"].cplx and f in ("mult", "diag")) else ("1",))]
         if fails:
             bad += 1
             ctx.violation("%s:%s" % (what, ",".join(fails)),
